@@ -1,7 +1,7 @@
 SPECIFICATION Spec
 CONSTANTS
-  AllowD8 = FALSE
-  HardOrder = TRUE
+  AllowD8 = TRUE
+  HardOrder = FALSE
 CONSTRAINT Report
 POSTCONDITION PostCond
 CHECK_DEADLOCK FALSE
